@@ -171,6 +171,20 @@ func c17Gate(c *core.Ctx) {
 	}
 	c.ExhaustiveDomain("gate: lengths 0..64 x structured classes (zeros, 0xFF, length field = len, len±1, len+2^k, len^2^k, all 256 type bytes)")
 	c.CellN("gate:structured", int64(n))
+	// buffers around 2^24 bytes (an event larger than one protocol packet
+	// reaches the library whole: the driver joins the fragments)
+	if c.Shard == 0 {
+		for _, l := range []int{1<<24 - 2, 1<<24 - 1, 1 << 24, 1<<24 + 1, 17 << 20} {
+			b := make([]byte, l)
+			b[4] = 30
+			binary.LittleEndian.PutUint32(b[9:], uint32(l))
+			c17Report(c, b, "huge")
+			binary.LittleEndian.PutUint32(b[9:], uint32(l-1))
+			c17Report(c, b, "huge")
+			c.Bulk(2, 2)
+		}
+		c.Cell("gate:buffers-around-2^24")
+	}
 	// random buffers
 	nr := c.N(100000, 20000000)
 	r := c.Rng(core.StrID("c17rand"), uint64(c.Shard))
@@ -245,7 +259,8 @@ type c17Scn struct {
 
 var c17Kinds = []string{"empty", "one-byte", "18-bytes", "truncated-by-1", "extended-by-1", "random",
 	"first-4", "first-5", "first-9", "first-12", "first-13", "first-14", "first-15", "first-16", "first-17", "first-19", "first-20",
-	"gv-header-only", "gv-random-body", "gv-ff-body"}
+	"gv-header-only", "gv-random-body", "gv-ff-body",
+	"prefixed-ef00", "prefixed-ef01", "prefixed-1", "prefixed-2", "prefixed-4"}
 
 // c17GateValid: kinds whose packet PASSES the validity test (full header,
 // length field right) although its body is garbage. What is demanded of them:
@@ -270,6 +285,23 @@ func c17Payload(kind string, plan []sim.PlanPkt, at int, r *core.Rng) []byte {
 		b := r.Bytes(18)
 		binary.LittleEndian.PutUint32(b[9:], 18)
 		return b
+	case "prefixed-ef00", "prefixed-ef01", "prefixed-1", "prefixed-2", "prefixed-4":
+		// a well-formed event behind a few stray bytes (0xef 0x00/0x01 is what a
+		// semi-synchronous master would put there): malformed at the front
+		var pre []byte
+		switch kind {
+		case "prefixed-ef00":
+			pre = []byte{0xef, 0x00}
+		case "prefixed-ef01":
+			pre = []byte{0xef, 0x01}
+		case "prefixed-1":
+			pre = r.Bytes(1)
+		case "prefixed-2":
+			pre = r.Bytes(2)
+		default:
+			pre = r.Bytes(4)
+		}
+		return append(pre, evb...)
 	case "truncated-by-1":
 		return append([]byte(nil), evb[:len(evb)-1]...)
 	case "first-4", "first-5", "first-9", "first-12", "first-13", "first-14", "first-15", "first-16", "first-17", "first-19", "first-20":
